@@ -337,7 +337,7 @@ func runJob(tier string, idx int, jb job) ([]prog.Result, []string, error) {
 		RunnerPkg:  "verif/mc/checks/c14/runner",
 		Env:        []string{"PROGRUN_MODE=c14"},
 		BuildP:     3,
-		Timeout:    6 * time.Minute,
+		Timeout:    15 * time.Minute,
 		GoCache:    os.Getenv("VERIF_SCRATCH_GOCACHE"),
 	}
 	res, err := prog.RunBatch(cfg, progs)
